@@ -337,7 +337,11 @@ func (r *renderer) renderDefs(f *file) {
 			f.p("func (x %s) VDesc() string { return \"#\" + %sItoa(x.ID) }\n", recv, f.vt())
 			ms := map[string]bool{}
 			for _, i := range t.Impls {
-				r.markers(i, ms)
+				if t.Partial {
+					ms["Is"+i.Name] = true
+				} else {
+					r.markers(i, ms)
+				}
 			}
 			for _, m := range sortedKeys(ms) {
 				f.p("func (x %s) %s() {}\n", recv, m)
@@ -384,7 +388,11 @@ func (r *renderer) renderDefs(f *file) {
 				f.p("func (x %s) VDesc() string { return Desc_%s(%s) }\n", recv, t.Name, self)
 				ms := map[string]bool{}
 				for _, i := range t.Impls {
-					r.markers(i, ms)
+					if t.Partial {
+						ms["Is"+i.Name] = true
+					} else {
+						r.markers(i, ms)
+					}
 				}
 				for _, m := range sortedKeys(ms) {
 					f.p("func (x %s) %s() {}\n", recv, m)
@@ -409,11 +417,24 @@ func (r *renderer) renderDefs(f *file) {
 		}
 		r.renderFunc(f, fn)
 	}
+	var mine []*Set
 	for _, s := range r.sets {
-		if s.Pkg != p {
+		if s.Pkg == p {
+			mine = append(mine, s)
+		}
+	}
+	for i := 0; i < len(mine); i++ {
+		s := mine[i]
+		if r.prog.PairSets && i+1 < len(mine) {
+			t := mine[i+1]
+			f.p("var %s, %s = %sNewSet(%s), %sNewSet(%s)\n\n", s.Name, t.Name, f.wire(), r.itemsExpr(f, s.Items), f.wire(), r.itemsExpr(f, t.Items))
+			i++
 			continue
 		}
 		f.p("var %s = %sNewSet(%s)\n\n", s.Name, f.wire(), r.itemsExpr(f, s.Items))
+	}
+	if p == r.prog.Root && r.prog.ExtraDecl != "" {
+		f.p("%s\n", r.prog.ExtraDecl)
 	}
 }
 
